@@ -14,4 +14,5 @@ func needOverlay(id string) func(string) int {
 func init() {
 	Registry["C04"] = needOverlay("C04")
 	Registry["C15"] = needOverlay("C15")
+	Registry["C14"] = needOverlay("C14")
 }
